@@ -147,6 +147,35 @@ theorem C08_dispatch_gzip (crc : Bytes → UInt32) (o : GzOpts) (cdata p : Bytes
     (hlen : minHeaderSize ≤ (gzipWrap crc o cdata p).length) :
     dispatch (gzipWrap crc o cdata p) = some "gzip" := dispatch_gzip crc o cdata p hlen
 
+/-- **the dispatch order matters for LHA only**: the signature tests of all other depackers (over the
+    generated `depacker_list`) are pairwise exclusive on every buffer -/
+theorem C08_tests_exclusive (e1 e2 : String × String × Magic) (h1 : e1 ∈ depackerList) (h2 : e2 ∈ depackerList)
+    (n1 : e1.1 ≠ "lha") (n2 : e2.1 ≠ "lha") (hne : e1.1 ≠ e2.1) (b : Bytes)
+    (ht : evalMagic e1.2.2 b = true) : evalMagic e2.2.2 b = false := by
+  have m1 : e1 ∈ nonLha := by simp [nonLha, h1, n1]
+  have m2 : e2 ∈ nonLha := by simp [nonLha, h2, n2]
+  exact conflict_excl _ _ b (tests_pairwise_exclusive e1 m1 e2 m2 hne) ht
+
+/-- hence: a file of at least the minimum size whose sniff buffer passes the test of depacker `e` (not LHA)
+    and fails LHA's test is dispatched to `e`, wherever `e` stands in `depacker_list` -/
+theorem C08_dispatch_of_test (e : String × String × Magic) (he : e ∈ depackerList) (hn : e.1 ≠ "lha")
+    (file : Bytes) (hlen : minHeaderSize ≤ (sniff file).length)
+    (ht : evalMagic e.2.2 (sniff file) = true)
+    (hl : ∀ x ∈ depackerList, x.1 = "lha" → evalMagic x.2.2 (sniff file) = false) :
+    dispatch file = some e.1 := by
+  unfold dispatch
+  have hs : ¬ (sniff file).length < minHeaderSize := by omega
+  simp only [hs, if_false]
+  rw [find?_unique (fun x => evalMagic x.2.2 (sniff file)) depackerList e he ht]
+  · rfl
+  · intro x hx hpx
+    by_cases hxl : x.1 = "lha"
+    · rw [hl x hx hxl] at hpx; exact absurd hpx (by simp)
+    · by_cases hxe : x.1 = e.1
+      · exact names_unique x hx e he hxe
+      · have := C08_tests_exclusive x e hx he hxl hn hxe (sniff file) hpx
+        rw [ht] at this; exact absurd this (by simp)
+
 /-- generic part of the pipeline: whenever the modelled `libxmp_decrunch` yields the payload, loading by
     path is loading the payload from memory, and the reported digest is `MD5 p` -/
 theorem C08_pipeline_of_decrunch {β : Type} (env : Env) (loader : Bytes → β) (file p : Bytes)
